@@ -7,6 +7,8 @@ import (
 	"go/types"
 	"sort"
 	"strings"
+
+	"golang.org/x/tools/go/cfg"
 )
 
 const mptPkg = "pkg/core/mpt"
@@ -637,4 +639,217 @@ func ruleRefCountResult(c *Ctx) {
 		})
 	}
 	c.Floor("calls of updateRefCount", n, 1)
+}
+
+// rc-loaded: a node the trie loads from the store to restructure is a counted node: it must either stay in the
+// result as a whole (handed on to the function that takes it over, embedded in a new node, returned) or be released
+// with removeRef. Building its replacement from its fields and dropping it leaves the stored record referenced by
+// nothing and never collected. Decided per load site by a path search over (block, aliases of the loaded node,
+// disposed?) - aliases follow type assertions and die on reassignment.
+func ruleRCLoaded(c *Ctx) {
+	pk := c.P.Pkg("pkg/core/mpt")
+	if pk == nil {
+		c.Lost("anchor", "package mpt not found")
+		return
+	}
+	const loader = "pkg/core/mpt.(*Trie).getFromStore"
+	nsites := 0
+	for _, fd := range c.P.AllFuncDecls() {
+		if fd.Pkg != pk || fd.Decl.Body == nil || fd.Decl.Recv == nil {
+			continue
+		}
+		f := c.P.NewFuncCFG(fd)
+		info := f.Info
+		idx := 0
+		for _, b := range f.G.Blocks {
+			if !b.Live {
+				continue
+			}
+			for ni, n := range b.Nodes {
+				as, ok := n.(*ast.AssignStmt)
+				if !ok || len(as.Rhs) != 1 || len(as.Lhs) < 1 {
+					continue
+				}
+				call, ok := ast.Unparen(as.Rhs[0]).(*ast.CallExpr)
+				if !ok || f.calleeSym(call) != loader {
+					continue
+				}
+				id, ok := as.Lhs[0].(*ast.Ident)
+				if !ok {
+					continue
+				}
+				loaded := info.ObjectOf(id)
+				if loaded == nil {
+					continue
+				}
+				nsites++
+				idx++
+				key := fmt.Sprintf("%s.load#%d", FuncKey(fd.Obj), idx)
+				if bad := rcLoadedSearch(c, f, b, ni+1, loaded); bad != "" {
+					c.Fail(key, c.P.Pos(as.Pos()), "a node loaded from the store can leave "+FuncKey(fd.Obj)+" (at "+bad+") neither kept as a whole nor released with removeRef: its stored record stays counted although nothing refers to it any more")
+				} else {
+					c.OK(key, c.P.Pos(as.Pos()), "the loaded node is handed on as a whole or released on every path that returns normally")
+				}
+			}
+		}
+	}
+	c.Floor("nodes loaded by Trie methods", nsites, 5)
+}
+
+func rcLoadedSearch(c *Ctx, f *FuncCFG, b0 *cfg.Block, start int, loaded types.Object) string {
+	info := f.Info
+	type state struct {
+		b        *cfg.Block
+		aliases  string // sorted object ids
+		disposed bool
+	}
+	ids := map[types.Object]int{}
+	var objs []types.Object
+	idOf := func(o types.Object) int {
+		if i, ok := ids[o]; ok {
+			return i
+		}
+		ids[o] = len(objs)
+		objs = append(objs, o)
+		return ids[o]
+	}
+	enc := func(set map[types.Object]bool) string {
+		var xs []int
+		for o := range set {
+			xs = append(xs, idOf(o))
+		}
+		sort.Ints(xs)
+		return fmt.Sprint(xs)
+	}
+	// wholeUse: an alias used other than as the base of a field/method selection, a type assertion or a comparison
+	wholeUse := func(n ast.Node, set map[types.Object]bool) bool {
+		found := false
+		var stack []ast.Node
+		ast.Inspect(n, func(x ast.Node) bool {
+			if x == nil {
+				stack = stack[:len(stack)-1]
+				return true
+			}
+			stack = append(stack, x)
+			if _, ok := x.(*ast.FuncLit); ok {
+				return true
+			}
+			if call, ok := x.(*ast.CallExpr); ok && strings.HasSuffix(f.calleeSym(call), ".removeRef") {
+				for _, a := range call.Args {
+					ast.Inspect(a, func(y ast.Node) bool {
+						if id, ok := y.(*ast.Ident); ok && set[info.ObjectOf(id)] {
+							found = true
+						}
+						return true
+					})
+				}
+			}
+			id, ok := x.(*ast.Ident)
+			if !ok || !set[info.ObjectOf(id)] || len(stack) < 2 {
+				return true
+			}
+			switch p := stack[len(stack)-2].(type) {
+			case *ast.SelectorExpr:
+				if p.X == ast.Expr(id) {
+					return true
+				}
+			case *ast.TypeAssertExpr:
+				return true
+			case *ast.BinaryExpr:
+				return true
+			case *ast.AssignStmt:
+				for _, lh := range p.Lhs {
+					if lh == ast.Expr(id) {
+						return true // being assigned, not used
+					}
+				}
+			}
+			found = true
+			return true
+		})
+		return found
+	}
+	step := func(n ast.Node, set map[types.Object]bool, disposed bool) (map[types.Object]bool, bool) {
+		if wholeUse(n, set) {
+			disposed = true
+		}
+		if as, ok := n.(*ast.AssignStmt); ok {
+			out := map[types.Object]bool{}
+			for o := range set {
+				out[o] = true
+			}
+			for i, lh := range as.Lhs {
+				lid, ok := lh.(*ast.Ident)
+				if !ok {
+					continue
+				}
+				lo := info.ObjectOf(lid)
+				var rh ast.Expr
+				if len(as.Rhs) == len(as.Lhs) {
+					rh = as.Rhs[i]
+				} else if i == 0 {
+					rh = as.Rhs[0]
+				}
+				isAlias := false
+				if rh != nil {
+					switch r := ast.Unparen(rh).(type) {
+					case *ast.Ident:
+						isAlias = set[info.ObjectOf(r)]
+					case *ast.TypeAssertExpr:
+						if rid, ok := ast.Unparen(r.X).(*ast.Ident); ok {
+							isAlias = set[info.ObjectOf(rid)]
+						}
+					}
+				}
+				if isAlias {
+					out[lo] = true
+				} else if lo != nil {
+					delete(out, lo)
+				}
+			}
+			return out, disposed
+		}
+		return set, disposed
+	}
+	seen := map[state]bool{}
+	type item struct {
+		b        *cfg.Block
+		from     int
+		set      map[types.Object]bool
+		disposed bool
+	}
+	work := []item{{b0, start, map[types.Object]bool{loaded: true}, false}}
+	for len(work) > 0 {
+		it := work[len(work)-1]
+		work = work[:len(work)-1]
+		set, disposed := it.set, it.disposed
+		for i := it.from; i < len(it.b.Nodes); i++ {
+			n := it.b.Nodes[i]
+			set, disposed = step(n, set, disposed)
+			if r, ok := n.(*ast.ReturnStmt); ok {
+				if !disposed && !f.isErrorExit(it.b, r) {
+					return c.P.Pos(r.Pos())
+				}
+			}
+		}
+		if len(set) == 0 && !disposed {
+			// the node is no longer reachable through any variable: it was dropped
+			for _, s := range it.b.Succs {
+				_ = s
+			}
+		}
+		for _, s := range it.b.Succs {
+			st := state{s, enc(set), disposed}
+			if seen[st] {
+				continue
+			}
+			seen[st] = true
+			cp := map[types.Object]bool{}
+			for o := range set {
+				cp[o] = true
+			}
+			work = append(work, item{s, 0, cp, disposed})
+		}
+	}
+	return ""
 }
